@@ -53,14 +53,33 @@ def has_forward_ref(order):
     return False
 
 
+# hand-made documents that run first: a path and the link it walks disagree on `*` versus a CIGAR, in direct and in
+# complement direction, hairpins, a path over two parallel-looking links, groups before their members
+CORPUS = [
+    ('gfa1', ['S\ta\t*', 'S\tb\t*', 'L\tb\t-\ta\t-\t5M', 'P\tp\ta+,b+\t*']),
+    ('gfa1', ['S\ta\t*', 'S\tb\t*', 'L\tb\t-\ta\t-\t*', 'P\tp\ta+,b+\t5M']),
+    ('gfa1', ['S\ta\t*', 'S\tb\t*', 'L\ta\t+\tb\t+\t*', 'P\tp\ta+,b+\t4M']),
+    ('gfa1', ['S\ta\t*', 'S\tb\t*', 'L\ta\t+\tb\t+\t3M1I', 'P\tp\tb-,a-\t*']),
+    ('gfa1', ['S\ta\t*', 'S\tb\t*', 'S\tc\t*', 'L\ta\t+\tb\t+\t2M', 'L\tc\t-\tb\t-\t*', 'P\tp\ta+,b+,c+\t2M,3M']),
+    ('gfa1', ['S\ta\t*', 'L\ta\t+\ta\t-\t3M1I', 'P\tp\ta+,a-\t1D3M']),
+    ('gfa1', ['S\ta\t*', 'S\tb\t*', 'L\ta\t+\ta\t-\t4M', 'L\ta\t-\tb\t+\t*', 'P\tp\ta+,a-,b+\t4M,*']),
+    ('gfa1', ['S\ta\t*', 'L\ta\t-\ta\t+\t*', 'P\tp\ta-,a+\t*']),
+    ('gfa2', ['S\ta\t10\t*', 'S\tb\t10\t*', 'E\te1\ta+\tb+\t7\t10$\t0\t3\t*', 'O\to1\ta+ b+', 'U\tu1\to1 e1']),
+]
+
+
 def run(ctx, deep, model_ok):
     g = impl.gfapy()
     rng = ctx.rng
     n = 120 if deep else 25
     terms, metas = [], []
-    for i in range(n):
-        ver = 'gfa1' if i % 2 else 'gfa2'
-        lines, info = GL.clean_doc(rng, ver)
+    for i in range(-len(CORPUS), n):
+        if i < 0:
+            ver, lines = CORPUS[i + len(CORPUS)]
+            lines = list(lines)
+        else:
+            ver = 'gfa1' if i % 2 else 'gfa2'
+            lines, info = GL.clean_doc(rng, ver)
         if GL.known_pattern([('add', l) for l in lines]):
             continue
         if len(lines) > 6 and rng.random() < 0.5:
